@@ -17,7 +17,7 @@ const safeDurationBeforeNextStage = 20 * time.Millisecond
 func newStagesWorker(stages []runnableStage) api.WorkTriggerer {
 	return func(ctx context.Context, output *ui.Output, workers *workers.PoolManager, options options.RunOptions) {
 		for _, stage := range stages {
-			if ctx.Err() != nil {
+			if ctx.Err() != nil || workers.MaxIterationsReached() {
 				return
 			}
 			runStage(ctx, output, workers, stage, options)
